@@ -1,0 +1,24 @@
+//go:build verif
+
+package types
+
+// VerifStepEnter / VerifStepExit, when set by a verification harness, are
+// called when ApplyFuncIfNoError has set up the cached context of a step and
+// when the step is left. VerifStepEnter may panic to make the step fail
+// before it touches the store.
+var (
+	VerifStepEnter func()
+	VerifStepExit  func()
+)
+
+func verifStepEnter() {
+	if VerifStepEnter != nil {
+		VerifStepEnter()
+	}
+}
+
+func verifStepExit() {
+	if VerifStepExit != nil {
+		VerifStepExit()
+	}
+}
